@@ -55,9 +55,10 @@ import (
 type step struct {
 	name     string
 	tx       func() *types.Transaction
-	relayers []string // expected registry after the step
-	pool     []string // expected members of the current view's peer pool after the step
-	oper     []string // expected consensus-status members (operator multisig) after the step
+	more     []func() *types.Transaction // further transactions of the same block
+	relayers []string                    // expected registry after the step
+	pool     []string                    // expected members of the current view's peer pool after the step
+	oper     []string                    // expected consensus-status members (operator multisig) after the step
 }
 
 type probe struct {
@@ -257,43 +258,47 @@ func setup() *env {
 		}
 		return o
 	}
-	for _, l := range lists {
-		l := l
+	// one request = 2 blocks here: the request, then the four approvals together (the intermediate approval counts are
+	// probed by histories A and B)
+	request := func(method, approve string, id *uint64, l []string, then func()) {
 		ls := strings.Join(l, ",")
-		for _, pre := range []string{"r1,r3", "r3"} { // removal: both registered / r1 already removed earlier
-			start()
-			push("registerRelayer([r1,r3]) by out -> apply 0", call(gov.RM, relayer_manager.REGISTER_RELAYER, gov.RelayerList(addrs("r1", "r3"), addr["out"]), "out"))
-			quorum(relayer_manager.APPROVE_REGISTER_RELAYER, 0, V[:4], func() { cur.rel = []string{"r1", "r3"} })
-			id := uint64(0)
-			if pre == "r3" {
-				push("removeRelayer([r1]) by out -> remove 0", call(gov.RM, relayer_manager.REMOVE_RELAYER, gov.RelayerList(addrs("r1"), addr["out"]), "out"))
-				quorum(relayer_manager.APPROVE_REMOVE_RELAYER, 0, V[:4], func() { cur.rel = []string{"r3"} })
-				id = 1
-			}
-			push(fmt.Sprintf("removeRelayer([%s]) by out -> remove %d", ls, id), call(gov.RM, relayer_manager.REMOVE_RELAYER, gov.RelayerList(addrs(l...), addr["out"]), "out"))
-			quorum(relayer_manager.APPROVE_REMOVE_RELAYER, id, V[1:], func() { cur.rel = minus(cur.rel, l) })
-			push("empty block", func() *types.Transaction { return nil })
-			e.hists[fmt.Sprintf("rm[%s]/registered=%s", ls, pre)] = hist
+		push(fmt.Sprintf("%s([%s]) by out -> id %d", method, ls, *id), call(gov.RM, method, gov.RelayerList(addrs(l...), addr["out"]), "out"))
+		then()
+		push(fmt.Sprintf("%s(%d) by v0..v3 (one block)", approve, *id), call(gov.RM, approve, gov.ApproveRelayer(*id, addr["v0"]), "v0"))
+		for _, v := range V[1:4] {
+			hist[len(hist)-1].more = append(hist[len(hist)-1].more, call(gov.RM, approve, gov.ApproveRelayer(*id, addr[v]), v))
 		}
-		for _, pre := range []string{"", "r1"} { // registration: nobody registered / r1 registered already
-			start()
-			id := uint64(0)
-			if pre == "r1" {
-				push("registerRelayer([r1]) by out -> apply 0", call(gov.RM, relayer_manager.REGISTER_RELAYER, gov.RelayerList(addrs("r1"), addr["out"]), "out"))
-				quorum(relayer_manager.APPROVE_REGISTER_RELAYER, 0, V[:4], func() { cur.rel = []string{"r1"} })
-				id = 1
-			}
-			push(fmt.Sprintf("registerRelayer([%s]) by out -> apply %d", ls, id), call(gov.RM, relayer_manager.REGISTER_RELAYER, gov.RelayerList(addrs(l...), addr["out"]), "out"))
-			quorum(relayer_manager.APPROVE_REGISTER_RELAYER, id, V[1:], func() { cur.rel = union(cur.rel, l) })
-			// ... and all of them removed again by one request listing them in reverse order
-			var rev []string
-			for i := len(l) - 1; i >= 0; i-- {
-				rev = append(rev, l[i])
-			}
-			push(fmt.Sprintf("removeRelayer([%s]) by out -> remove 0", strings.Join(rev, ",")), call(gov.RM, relayer_manager.REMOVE_RELAYER, gov.RelayerList(addrs(rev...), addr["out"]), "out"))
-			quorum(relayer_manager.APPROVE_REMOVE_RELAYER, 0, V[:4], func() { cur.rel = minus(cur.rel, l) })
-			e.hists[fmt.Sprintf("reg[%s]/registered=%s", ls, pre)] = hist
+		*id++
+	}
+	const chunks = 4
+	for c := 0; c < chunks; c++ {
+		start()
+		var applyID, removeID uint64
+		reg := func(l []string) {
+			request(relayer_manager.REGISTER_RELAYER, relayer_manager.APPROVE_REGISTER_RELAYER, &applyID, l, func() { cur.rel = union(cur.rel, l) })
 		}
+		rm := func(l []string) {
+			request(relayer_manager.REMOVE_RELAYER, relayer_manager.APPROVE_REMOVE_RELAYER, &removeID, l, func() { cur.rel = minus(cur.rel, l) })
+		}
+		all := []string{"r2", "r1", "r3"}
+		for li, l := range lists {
+			if li%chunks != c {
+				continue
+			}
+			reg(l) // registration list, nobody registered
+			rm(all)
+			reg([]string{"r1"})
+			reg(l) // registration list, r1 registered already
+			rm(all)
+			reg([]string{"r1", "r3"})
+			rm(l) // removal list, r1 and r3 registered
+			rm(all)
+			reg([]string{"r3", "r1"})
+			rm([]string{"r1"})
+			rm(l) // removal list, r1 already removed, r3 registered
+			rm(all)
+		}
+		e.hists[fmt.Sprintf("L%d", c)] = hist
 	}
 	return e
 }
@@ -445,6 +450,9 @@ func runChild(hname string, s int, refresh []int) (res runResult) {
 			var txs []*types.Transaction
 			if t := st.tx(); t != nil {
 				txs = append(txs, t)
+			}
+			for _, m := range st.more {
+				txs = append(txs, m())
 			}
 			if _, err := ch.Commit(ch.NextBlock(txs, nil)); err != nil {
 				return fail("commit of history step %d (%s): %v", i, st.name, err)
@@ -694,10 +702,20 @@ func main() {
 				ks = append(ks, k)
 			}
 		}
+		near := map[int]bool{0: true} // quick: later refreshes only for nodes started at genesis or right before a change
+		for _, c := range cps {
+			near[c-1] = true
+		}
+		at := map[int]bool{}
+		for _, c := range cps {
+			at[c] = true
+		}
 		for s := 0; s < len(h); s++ {
-			specs = append(specs, runSpec{hn, s, nil})
+			if r.Thorough() || near[s] || at[s] {
+				specs = append(specs, runSpec{hn, s, nil})
+			}
 			for _, k := range ks {
-				if k > s {
+				if k > s && (r.Thorough() || near[s]) {
 					specs = append(specs, runSpec{hn, s, []int{k}})
 				}
 			}
@@ -724,15 +742,7 @@ func main() {
 		points += len(h)
 		specs = append(specs, runSpec{hn, 0, nil}) // the node runs from genesis, no refresh after its start
 		if r.Thorough() {
-			cps := changePoints(h)
-			q := len(h) - 1
-			if len(cps) > 0 {
-				q = cps[len(cps)-1]
-			}
-			specs = append(specs, runSpec{hn, 0, []int{q}}, runSpec{hn, q, nil})
-			if q > 1 {
-				specs = append(specs, runSpec{hn, q - 1, nil})
-			}
+			specs = append(specs, runSpec{hn, 0, changePoints(h)}) // ... and refreshing at every registry change
 		}
 	}
 	r.Note("list_shape_histories", len(miniNames))
@@ -822,7 +832,7 @@ func main() {
 		"admission looks at the listed public keys only (signatures are checked by the stateless validator before pooling): forged claims are counted",
 		"the only state the driver touches is the refresh stamp lastTime (the wall-clock seam); every run is a fresh child process carried across the whole history")
 	r.Finish(map[string]any{
-		"rule":        fmt.Sprintf("%d runs, each a fresh node process carried over a governance history on its own real ledger (2 long histories + %d list-shape histories [removal / registration request lists of length 1..3 over {r1,r3,r2=never registered} in every order, duplicates included, with r1 registered / already removed before; registry reference = model of the approved requests], %d points in all: A register+approve r1, remove+approve, re-add r1+r3, remove r3, candidate joins, commitDpos, validator quits, commitDpos; B removal approved before the registration reaches quorum, registration completes, both removed, validator blacklisted): all (start point s, refresh points R) with R={} or {k>s} (quick: k over change points; thorough: all k and all pairs of change points); at every point >= s the process submits %d signer sets (all subsets <=2 of {r1,r2,validator,operator,outsider} in both orders + r3,c1,v4,later operators + 4 forged) x sender {peer, rpc} without refresh, at s and at the points of R also with a refresh before every submission; oracle admitted => some signer registered now or in the peer pool now", done, len(miniNames), points, len(e.probes)),
+		"rule":        fmt.Sprintf("%d runs, each a fresh node process carried over a governance history on its own real ledger (2 long histories + %d list-shape histories [together: every removal / registration request list of length 1..3 over {r1,r3,r2=never registered} in every order, duplicates included, each with nobody / r1 registered (registration) and r1,r3 registered / r1 already removed (removal); registry reference = model of the approved requests], %d points in all: A register+approve r1, remove+approve, re-add r1+r3, remove r3, candidate joins, commitDpos, validator quits, commitDpos; B removal approved before the registration reaches quorum, registration completes, both removed, validator blacklisted): (start point s, refresh points R) with R={} or {k>s}: quick s in {0, right before / at each registry or pool change} and k over the change points; thorough all s, all k and all pairs of change points; at every point >= s the process submits %d signer sets (all subsets <=2 of {r1,r2,validator,operator,outsider} in both orders + r3,c1,v4,later operators + 4 forged) x sender {peer, rpc} without refresh, at s and at the points of R also with a refresh before every submission; oracle admitted => some signer registered now or in the peer pool now", done, len(miniNames), points, len(e.probes)),
 		"states":      states,
 		"transitions": transitions, "traces_validated_against_impl": done,
 		"max_depth": points,
